@@ -1,6 +1,6 @@
 From Coq Require Import Extraction ExtrOcamlBasic NArith List.
-From MV Require Import Base.PyStr Base.Res Nest.Lines Nest.Split.
+From MV Require Import Base.PyStr Base.Res Nest.Lines Nest.Split Nest.Fence.
 Extraction Language OCaml.
-Extraction "model.ml" N.succ N.to_nat splitlines unlines parse_info directive_name
+Extraction "model.ml" N.succ N.to_nat split_lines unlines parse_info directive_name
   parse_directive_text adm_class admt_class print_lines nested_calls closes no_closer
-  directive_content opt_lines.
+  directive_content opt_lines parse_fence.
